@@ -55,11 +55,38 @@ func runC15(c *core.Ctx) {
 	for i := range keys {
 		keys[i] = r.Intn(u) - u/2
 	}
-	switch r.Intn(4) {
+	switch r.Intn(6) {
 	case 0:
 		sort.Ints(keys)
 	case 1:
 		sort.Sort(sort.Reverse(sort.IntSlice(keys)))
+	case 2, 3:
+		// nearly sorted: sorted (asc or desc) except for 1..5 spots - adaptive
+		// pre-passes of a re-implemented sort live here
+		sort.Ints(keys)
+		if r.Bool() {
+			sort.Sort(sort.Reverse(sort.IntSlice(keys)))
+		}
+		for k := r.Range(1, 5); k > 0 && n > 0; k-- {
+			switch r.Intn(4) {
+			case 0: // swap two positions (often involving an end)
+				i, j := r.Intn(n), r.Intn(n)
+				if r.Bool() {
+					i = 0
+				}
+				keys[i], keys[j] = keys[j], keys[i]
+			case 1: // a new minimum somewhere
+				keys[r.Intn(n)] = -(1 << 40)
+			case 2: // a new maximum somewhere
+				keys[r.Intn(n)] = 1 << 40
+			case 3: // move the last element to a random place
+				i := r.Intn(n)
+				v := keys[n-1]
+				copy(keys[i+1:], keys[i:n-1])
+				keys[i] = v
+			}
+		}
+		c.Count("inputs_nearly_sorted", 1)
 	}
 	if !sortAll(c, keys, r) {
 		return
